@@ -77,8 +77,14 @@ def put_tail(ex, st, band, hunk_count):
     st.put_file(band_name(band) + '/BANDTAIL', doc)
 
 
-def put_hunk(ex, st, band, n, entries):
-    doc = JsonDoc(VecV(list(entries)), 'Vec<IndexEntry>', 50)
+def put_hunk(ex, st, band, n, entries, raw=False):
+    """An index hunk as conserve writes it (fields that serde leaves out under a skip_serializing_if predicate come back as
+    their default); raw=True stores the values as given - what a reader DECODES, which need not be anything conserve wrote."""
+    entries = list(entries)
+    if not raw:
+        for e in entries:
+            env.apply_serde_skips(ex, e)
+    doc = JsonDoc(VecV(entries), 'Vec<IndexEntry>', 50)
     st.put_file(hunk_path(band, n), Compressed(doc, 20))
 
 
